@@ -470,14 +470,21 @@ impl RateLimiter {
             elapsed.as_nanos() % self.interval as u128,
         );
 
-        // We add `new` to `capacity`, subtract one for returning `true` from here,
-        // then make sure it does not exceed a maximum of `MAX_BURST`, then store it.
-        self.capacity = Ord::min(MAX_BURST as u128, (self.capacity as u128) + new - 1) as u8;
-        // Store `prev` for the next iteration after subtracting the `remainder`.
-        // Just use `unwrap` here because it shouldn't be possible for this to underflow.
-        self.prev = now
-            .checked_sub(Duration::from_nanos(remainder as u64))
-            .unwrap();
+        // We add `new` to `capacity` without exceeding a maximum of `MAX_BURST`, then subtract
+        // one for returning `true` from here, then store it.
+        let refilled = (self.capacity as u128) + new;
+        if refilled >= MAX_BURST as u128 {
+            // The bucket is full: time beyond that is not saved up for later.
+            self.capacity = MAX_BURST - 1;
+            self.prev = now;
+        } else {
+            self.capacity = (refilled - 1) as u8;
+            // Store `prev` for the next iteration after subtracting the `remainder`.
+            // Just use `unwrap` here because it shouldn't be possible for this to underflow.
+            self.prev = now
+                .checked_sub(Duration::from_nanos(remainder as u64))
+                .unwrap();
+        }
         true
     }
 }
